@@ -5,8 +5,8 @@
     (coq/Solver.v, tied to gearpy bit for bit) that is never held, at a constant duty cycle OF EITHER SIGN outside the dead zone of a motor with
     current data, constant step and constant load, has the SI speed and position of its output element equal to that recurrence, with
     A and kap explicit in ratios, efficiencies, inertias, motor constants and load — for chains of any length and quantities in any units.
-    Not covered by (3), hence _partial there (correspondence + the dt-halving search on the implementation): motors without current
-    data, and the two-sided first-order statement "the error roughly halves" (only the O(dt) upper bound is proved).
+    (3') the same for a motor WITHOUT current data (torque Tmax (1 - w/w0) whatever the duty cycle).
+    Not covered, hence _partial (correspondence + the dt-halving search on the implementation): the two-sided first-order statement "the error roughly halves" (only the O(dt) upper bound is proved).
     Rounding of the binary64 run is not part of the theorems. *)
 From Coq Require Import ZArith QArith Reals Lra String List Bool PrimFloat.
 From Coquelicot Require Import Coquelicot.
@@ -58,6 +58,23 @@ Theorem C04_model_converges : forall (c : @chain RA) load i0 imax, m_i0 (c_motor
     Rabs (Wk - w_exact A kap W00 (INR k * DT)) <= 2/5 * (kap * DT) * Rabs (W00 - A / kap) /\
     Rabs (Pk - th_exact A kap W00 P00 (INR k * DT)) <= DT * Rabs (W00 - A / kap).
 Proof. intros. eapply model_converges; eauto. Qed.
+
+(** a motor without current data: A = (Tmax G - L)/J, kap = Tmax G R/(w0 J) *)
+Theorem C04_model_converges_nocurrent : forall (c : @chain RA) load, (m_i0 (c_motor c) = None \/ m_imax (c_motor c) = None) ->
+  forall W0 TM L, si (m_w0 (c_motor c)) = Ok W0 -> si (m_Tmax (c_motor c)) = Ok TM -> qk (m_Tmax (c_motor c)) = KTorque ->
+  (forall t p w lt, load t p w = Ok lt -> qk lt = KTorque /\ si lt = Ok L) ->
+  forall JJ DT D J dt0, equivalent_inertia c = Ok J -> si J = Ok JJ -> qk J = KInertiaMoment -> si dt0 = Ok DT -> 0 < W0 /\ 0 < JJ ->
+  let A := (TM * Gg c - L) / JJ in let kap := TM * Gg c * Rr c / (1 * W0 * JJ) in
+  0 < kap -> kap * DT <= 1/5 -> 0 < DT ->
+  forall h, hist_ok c load h -> uniform D dt0 h -> h <> [] ->
+  forall t0 s0 pre, h = (pre ++ [(t0, s0)])%list ->
+  forall w0 p0 W00 P00, lastq (s_spd s0) = Ok w0 -> lastq (s_pos s0) = Ok p0 -> si w0 = Ok W00 -> si p0 = Ok P00 ->
+  forall t s rest, h = (t, s) :: rest ->
+  let k := length rest in
+  exists wk pk Wk Pk, lastq (s_spd s) = Ok wk /\ lastq (s_pos s) = Ok pk /\ si wk = Ok Wk /\ si pk = Ok Pk /\
+    Rabs (Wk - w_exact A kap W00 (INR k * DT)) <= 2/5 * (kap * DT) * Rabs (W00 - A / kap) /\
+    Rabs (Pk - th_exact A kap W00 P00 (INR k * DT)) <= DT * Rabs (W00 - A / kap).
+Proof. intros. eapply (model_converges_nocurrent c load); eauto. Qed.
 
 Print Assumptions C04_model_converges.
 Print Assumptions C04_speed_error.
